@@ -7,7 +7,7 @@
 EXTENDS Trie, Json, TLCExt
 LogLast(h, r) == <<r>>
 TLog == ndJsonDeserialize("trace.ndjson")
-TraceKeys == LET T == TLog IN {T[i].in.k : i \in {j \in 1..Len(T) : T[j].a \in {"Update", "Delete", "Get"}}}
+TraceKeys == LET T == TLog IN {T[i].in.k : i \in {j \in 1..Len(T) : T[j].a \in {"Update", "Delete"}}}
 TraceVals == 1..255
 VARIABLES l,        \* next line of the log
           seen,     \* set of <<root id, specification hash>> observed so far (all traces of the file)
